@@ -40,7 +40,14 @@ def ratchet_history(rng, maxlen=10):
             if rng.random() < 0.15:
                 fl["wae"] = True
             files = rand_files(rng, prev) if rng.random() < 0.4 else None
-            h.append({"op": "check", "flags": fl, "files": files, "threads": rng.choice([1, 1, 2, 4, 16])})
+            o = {"op": "check", "flags": fl, "files": files, "threads": rng.choice([1, 1, 2, 4, 16])}
+            if files is None and rng.random() < 0.25:
+                o["root"] = rng.choice(["d1", "d2"])     # sub-path root: the other directories are not evaluated
+            if rng.random() < 0.12:
+                fl["ns"] = True                            # structure checks disabled: no directory is evaluated
+            if rng.random() < 0.1:
+                fl["u"] = rng.choice("ncs")                # tightening and updating in one run
+            h.append(o)
     return h
 
 
